@@ -96,7 +96,233 @@ fn matches_known(v: &Violation, known: &[(String, String, String)]) -> Option<St
     None
 }
 
+/// Result of one worker process (engines whose SUT serialises all threads on the stdout lock —
+/// Jura's tick println!s the book — are run in worker processes instead of worker threads).
+#[derive(Serialize, Deserialize, Default)]
+pub struct WorkerOut {
+    pub runs: u64,
+    pub sim_ticks: u64,
+    pub sim_span: String,
+    pub ops: u64,
+    pub events: u64,
+    pub distinct: Vec<u64>,
+    pub nontrivial: Vec<u64>,
+    pub ileave: Vec<u64>,
+    pub states: Vec<u64>,
+    pub counters: BTreeMap<String, u64>,
+    pub other: BTreeMap<String, u64>,
+    pub known_hits: BTreeMap<String, u64>,
+    pub samples: Vec<(u64, Value)>,
+    pub first_failure: Option<u64>,
+    pub capped: bool,
+}
+
+fn read_stop(dir: &str, n: usize) -> u64 {
+    let mut m = u64::MAX;
+    for k in 0..n {
+        if let Ok(s) = std::fs::read_to_string(format!("{dir}/stop.{k}")) {
+            if let Ok(v) = s.trim().parse::<u64>() {
+                m = m.min(v);
+            }
+        }
+    }
+    m
+}
+
+/// Body of `sim worker ...`: runs indices idx, idx+n, idx+2n, ... single-threaded.
+pub fn worker_main<E: Engine>(e: &E, p: &Params, idx: usize, n: usize, dir: &str) {
+    let t0 = Instant::now();
+    let mut out = WorkerOut::default();
+    let mut distinct = HashSet::new();
+    let mut nontrivial = HashSet::new();
+    let mut ileave = HashSet::new();
+    let mut states = HashSet::new();
+    let mut span: i128 = 0;
+    let mut i = idx as u64;
+    let mut iter = 0u64;
+    let mut stop = u64::MAX;
+    while i < p.runs {
+        if iter % 8 == 0 {
+            stop = stop.min(read_stop(dir, n));
+            if t0.elapsed().as_secs_f64() > p.wall_cap_s {
+                out.capped = true;
+                let _ = std::fs::write(format!("{dir}/stop.{idx}"), format!("{}", i.min(stop)));
+                break;
+            }
+        }
+        if i > stop {
+            break;
+        }
+        iter += 1;
+        let run_seed = mix(p.seed, e.name(), i);
+        let (case, ctx) = match catch(|| e.generate(run_seed, p.focus, p.tier, false)) {
+            Ok(x) => x,
+            Err(msg) => {
+                crate::out!("HARNESS-ERROR engine={} run={} seed={}: {}", e.name(), i, run_seed, msg);
+                std::process::exit(2);
+            }
+        };
+        out.runs += 1;
+        out.sim_ticks += ctx.sim_ticks;
+        span += ctx.sim_span as i128;
+        out.ops += ctx.ops;
+        out.events += ctx.log.events;
+        let h = ctx.log.hash();
+        distinct.insert(h);
+        if ctx.nontrivial {
+            nontrivial.insert(h);
+        }
+        ileave.insert(ctx.ileave);
+        states.extend(ctx.states.iter().copied());
+        for (k, v) in &ctx.counters {
+            *out.counters.entry(k.to_string()).or_insert(0) += v;
+        }
+        for (k, v) in &ctx.other {
+            *out.other.entry(k.clone()).or_insert(0) += v;
+        }
+        if i < 3 {
+            out.samples.push((i, e.sample(&case)));
+        }
+        if let Some(v) = &ctx.violation {
+            if let Some(text) = matches_known(v, p.known) {
+                *out.known_hits.entry(text).or_insert(0) += 1;
+            } else {
+                out.first_failure = Some(i);
+                let _ = std::fs::write(format!("{dir}/stop.{idx}"), format!("{i}"));
+                break;
+            }
+        }
+        i += n as u64;
+    }
+    out.sim_span = span.to_string();
+    out.distinct = distinct.into_iter().collect();
+    out.nontrivial = nontrivial.into_iter().collect();
+    out.ileave = ileave.into_iter().collect();
+    out.states = states.into_iter().collect();
+    std::fs::write(format!("{dir}/out.{idx}.json"), serde_json::to_vec(&out).unwrap()).expect("worker: write result");
+}
+
+/// Same contract as `run_engine`, with worker processes.
+pub fn run_engine_procs<E: Engine>(e: &E, p: &Params) -> EngineReport {
+    let t0 = Instant::now();
+    let n = p.jobs.max(1);
+    let dir = format!("/verif/sim/target/tmp/w{}-{}", std::process::id(), e.name());
+    let _ = std::fs::remove_dir_all(&dir);
+    std::fs::create_dir_all(&dir).expect("create worker dir");
+    let exe = std::env::current_exe().expect("current exe");
+    let known_json = serde_json::to_string(&p.known).unwrap();
+    let mut children = Vec::new();
+    for k in 0..n {
+        let c = std::process::Command::new(&exe)
+            .args(["worker", e.name(), p.focus, p.tier.name()])
+            .arg(p.seed.to_string())
+            .arg(p.runs.to_string())
+            .arg(k.to_string())
+            .arg(n.to_string())
+            .arg(p.wall_cap_s.to_string())
+            .arg(&dir)
+            .arg(&known_json)
+            .stdout(std::process::Stdio::inherit())
+            .spawn()
+            .expect("spawn worker");
+        children.push(c);
+    }
+    for mut c in children {
+        let st = c.wait().expect("wait worker");
+        if !st.success() {
+            crate::out!("HARNESS-ERROR worker process of engine {} exited with {:?}", e.name(), st.code());
+            std::process::exit(2);
+        }
+    }
+    let mut rep = EngineReport { engine: e.name().to_string(), ..Default::default() };
+    let mut distinct = HashSet::new();
+    let mut nontrivial = HashSet::new();
+    let mut ileave = HashSet::new();
+    let mut states = HashSet::new();
+    let mut samples: Vec<(u64, Value)> = Vec::new();
+    let mut first_failure: Option<u64> = None;
+    for k in 0..n {
+        let bytes = std::fs::read(format!("{dir}/out.{k}.json")).expect("read worker result");
+        let w: WorkerOut = serde_json::from_slice(&bytes).expect("parse worker result");
+        rep.runs += w.runs;
+        rep.sim_ticks += w.sim_ticks;
+        rep.sim_span += w.sim_span.parse::<i128>().unwrap_or(0);
+        rep.ops += w.ops;
+        rep.events += w.events;
+        distinct.extend(w.distinct);
+        nontrivial.extend(w.nontrivial);
+        ileave.extend(w.ileave);
+        states.extend(w.states);
+        for (k, v) in w.counters {
+            *rep.counters.entry(k).or_insert(0) += v;
+        }
+        for (k, v) in w.other {
+            *rep.other_props.entry(k).or_insert(0) += v;
+        }
+        for (k, v) in w.known_hits {
+            *rep.known_hits.entry(k).or_insert(0) += v;
+        }
+        samples.extend(w.samples);
+        rep.capped_by_wall_clock |= w.capped;
+        if let Some(f) = w.first_failure {
+            first_failure = Some(first_failure.map_or(f, |x| x.min(f)));
+        }
+    }
+    let _ = std::fs::remove_dir_all(&dir);
+    rep.nontrivial_distinct = nontrivial.len() as u64;
+    rep.distinct_runs = distinct.len() as u64;
+    rep.interleavings = ileave.len() as u64;
+    rep.states = states.len() as u64;
+    samples.sort_by_key(|x| x.0);
+    rep.samples = samples.into_iter().map(|x| x.1).collect();
+    if let Some(idx) = first_failure {
+        // regenerate the failing run here (pure function of the seed), then shrink as usual
+        let run_seed = mix(p.seed, e.name(), idx);
+        let (case, ctx) = e.generate(run_seed, p.focus, p.tier, false);
+        match ctx.violation.clone() {
+            Some(v) => rep.failure = Some(finish_failure(e, p, idx, run_seed, case, v, ctx.ops as usize)),
+            None => {
+                crate::out!("HARNESS-ERROR engine={} run={} seed={}: a worker reported a violation that does not reproduce", e.name(), idx, run_seed);
+                std::process::exit(2);
+            }
+        }
+    }
+    rep.wall_s = t0.elapsed().as_secs_f64();
+    rep
+}
+
+fn finish_failure<E: Engine>(e: &E, p: &Params, idx: u64, run_seed: u64, case: E::Case, v: Violation, ops: usize) -> Failure {
+    let (min_case, replays) = shrink(e, &case, &v, p.focus);
+    let ctx = e.replay(&min_case, p.focus, false);
+    let (viol, hash, final_case) = match ctx.violation.clone() {
+        Some(v2) if v2.prop == v.prop && v2.rule == v.rule => (v2, ctx.log.hash(), min_case),
+        _ => {
+            let c0 = e.replay(&case, p.focus, false);
+            match c0.violation.clone() {
+                Some(v0) => (v0, c0.log.hash(), case),
+                None => {
+                    crate::out!("HARNESS-ERROR engine={} run={} seed={}: recorded case does not reproduce {}/{}", e.name(), idx, run_seed, v.prop, v.rule);
+                    std::process::exit(2);
+                }
+            }
+        }
+    };
+    Failure {
+        run_index: idx,
+        run_seed,
+        violation: viol,
+        case: serde_json::to_value(&final_case).unwrap(),
+        hash,
+        ops: e.ops_len(&final_case),
+        ops_before_shrink: ops,
+        shrink_replays: replays,
+    }
+}
+
 pub fn run_engine<E: Engine>(e: &E, p: &Params) -> EngineReport {
+    if e.prefers_processes() && p.jobs > 1 {
+        return run_engine_procs(e, p);
+    }
     let t0 = Instant::now();
     let next = AtomicU64::new(0);
     let stop_after = AtomicU64::new(u64::MAX);
@@ -219,32 +445,7 @@ pub fn run_engine<E: Engine>(e: &E, p: &Params) -> EngineReport {
     let mut f = failures.into_inner().unwrap();
     f.sort_by_key(|x| x.0);
     if let Some((idx, run_seed, case, v, _h, ops)) = f.into_iter().next() {
-        let (min_case, replays) = shrink(e, &case, &v, p.focus);
-        let ctx = e.replay(&min_case, p.focus, false);
-        let (viol, hash) = match ctx.violation.clone() {
-            Some(v2) if v2.prop == v.prop && v2.rule == v.rule => (v2, ctx.log.hash()),
-            _ => {
-                // shrinking must preserve the violation; fall back to the original case
-                let c0 = e.replay(&case, p.focus, false);
-                match c0.violation.clone() {
-                    Some(v0) => (v0, c0.log.hash()),
-                    None => {
-                        crate::out!("HARNESS-ERROR engine={} run={} seed={}: recorded case does not reproduce {}/{}", e.name(), idx, run_seed, v.prop, v.rule);
-                        std::process::exit(2);
-                    }
-                }
-            }
-        };
-        rep.failure = Some(Failure {
-            run_index: idx,
-            run_seed,
-            violation: viol,
-            case: serde_json::to_value(&min_case).unwrap(),
-            hash,
-            ops: e.ops_len(&min_case),
-            ops_before_shrink: ops,
-            shrink_replays: replays,
-        });
+        rep.failure = Some(finish_failure(e, p, idx, run_seed, case, v, ops));
     }
     rep.wall_s = t0.elapsed().as_secs_f64();
     rep
